@@ -528,7 +528,10 @@ fn deliver(shared: &Shared, mgr: Arc<Mgr>, u: usize, tracked_before: Option<Opti
         h.delivered_ms = now;
         h.deliveries += 1;
         h.answer = None;
-        h.funding_pay = None;
+        // a replayed HTLC (restart) that funded a pay in an earlier lifetime still funds it
+        if h.deliveries <= 1 {
+            h.funding_pay = None;
+        }
         h.tracked_before = tracked_before.flatten();
         let lab = format!("{:?}", h.spec.label).chars().take(40).collect::<String>();
         w.ev(|| format!("DELIVER htlc#{u} amt={} exp={} label={lab}", params["htlc"]["amount_msat"], params["htlc"]["cltv_expiry"]));
